@@ -145,7 +145,15 @@ impl<TCompilationProfile: CompilationProfile> IsographDatabase<TCompilationProfi
             .get_iso_literal_map_mut()
             .tracked()
             .0
-            .extract_if(|k, _| k.to_string().starts_with(relative_path))
+            .extract_if(|k, _| {
+                // a file is inside the folder if the folder path is a prefix that ends
+                // at a path-component boundary ("src/a" must not match "src/ab/x.ts")
+                k.lookup().strip_prefix(relative_path).is_some_and(|rest| {
+                    rest.is_empty()
+                        || rest.starts_with(std::path::is_separator)
+                        || relative_path.ends_with(std::path::is_separator)
+                })
+            })
             .map(|(_, v)| v)
             .collect::<Vec<_>>();
 
